@@ -119,12 +119,21 @@ Qed.
 Lemma Forall2_len {A B} (R : A -> B -> Prop) l0 l : Forall2 R l0 l -> length l = length l0.
 Proof. induction 1; simpl; auto. Qed.
 
+Lemma NoDup_app_snoc {B} (l : list B) x : NoDup l -> ~ In x l -> NoDup (l ++ [x]).
+Proof.
+  induction l as [|y l IH]; simpl; intros Hnd Hx.
+  - constructor; auto.
+  - inversion Hnd; subst. constructor.
+    + rewrite in_app_iff. simpl. intros [H|[H|[]]]; [auto | subst; auto].
+    + apply IH; auto.
+Qed.
+
 (* ------------------------------------------------------------------------------------------- *)
 (* programs that do not touch the shared state *)
 Section Local.
 Variable draw : Z -> nat -> float.
 
-Definition lop_local (o : lop) : bool := match o with LBernGlobal _ => false | _ => true end.
+Definition lop_local (o : lop) : bool := match o with LSampGlobal _ => false | _ => true end.
 Definition val_local (l : lstate) : Prop := forallb lop_local (v_pend (l_val l)) = true.
 Definition rng0 : rng := (0, 0%nat).
 Definition force_l (ops : list lop) (xs : list Z) : list Z := fst (force_ops draw ops xs rng0).
@@ -521,19 +530,28 @@ Proof.
   apply Nat2Z.inj in E. subst n'. congruence.
 Qed.
 
+(* the cache after computing partition (i, p) of r, starting from c *)
+Fixpoint adds (r : rdd) (i : Z) (p : list Z) (c : cache) : cache :=
+  match r with
+  | Src => c
+  | Map _ r' => adds r' i p c
+  | Sample _ _ r' => adds r' i p c
+  | Persist id r' => if c_has c (id, i) then c else c_set (adds r' i p c) (id, i) (eval r' i p)
+  end.
+
 Lemma exec_compile n p (Hn : nth_error parts n = Some p) r :
   wf lin r -> forall k l, val_local l -> l_crash l = false -> cache_ok (l_cache l) ->
   exists c' v',
     lx (Z.of_nat n) p (compile today r k) l = lx (Z.of_nat n) p k (mk c' v' l) /\
     forallb lop_local (v_pend v') = true /\
     fl (v_pend v') (v_base v') = eval r (Z.of_nat n) p /\
-    cache_ok c'.
+    cache_ok c' /\ c' = adds r (Z.of_nat n) p (l_cache l).
 Proof.
   induction r as [|f r IH|id r IH|s fr r IH]; simpl; intros Hwf k l Hl Hcr Hc.
   - exists (l_cache l), {| v_base := p; v_pend := [] |}.
     rewrite lexec_act by (auto; simpl; auto). split; [|simpl; auto].
     unfold do_act_l, mk; simpl. unfold set_val. rewrite Hcr. reflexivity.
-  - destruct (IH Hwf (PAct (APush (LMap f)) k) l Hl Hcr Hc) as (c1 & v1 & E & Hv1 & Hf1 & Hc1).
+  - destruct (IH Hwf (PAct (APush (LMap f)) k) l Hl Hcr Hc) as (c1 & v1 & E & Hv1 & Hf1 & Hc1 & Ha1).
     exists c1, {| v_base := v_base v1; v_pend := v_pend v1 ++ [LMap f] |}.
     rewrite E, lexec_act by (auto; simpl; auto). split; [reflexivity|]. simpl.
     split; [rewrite forallb_app, Hv1; reflexivity|]. split; auto.
@@ -549,7 +567,7 @@ Proof.
       unfold force_l; simpl. rewrite <- Hlin. eapply cache_ok_get; eauto.
     + rewrite lexec_gate.
       destruct (IH Hwf (PAct AForce (PGate L_add (PAct (AAdd id) (PGate L_cm (PGate L_ret k))))) l Hl Hcr Hc)
-        as (c1 & v1 & E & Hv1 & Hf1 & Hc1).
+        as (c1 & v1 & E & Hv1 & Hf1 & Hc1 & Ha1).
       rewrite E.
       assert (Hl1 : val_local (mk c1 v1 l)) by exact Hv1.
       rewrite lexec_act by (auto; rewrite do_act_l_force by auto; reflexivity).
@@ -557,11 +575,11 @@ Proof.
       rewrite lexec_act by (auto; reflexivity).
       rewrite !lexec_gate.
       exists (c_set c1 (id, Z.of_nat n) (eval r (Z.of_nat n) p)), {| v_base := eval r (Z.of_nat n) p; v_pend := [] |}.
-      split; [reflexivity|]. simpl. split; auto. split; [reflexivity|].
+      split; [reflexivity|]. simpl. split; auto. split; [reflexivity|]. split; [|rewrite Ha1; reflexivity].
       apply cache_ok_set with (p := p); auto. rewrite Hlin. reflexivity.
   - rewrite !lexec_gate.
-    destruct (IH Hwf (PGate L_gen (PAct (APushBernOwn s fr) k)) l Hl Hcr Hc) as (c1 & v1 & E & Hv1 & Hf1 & Hc1).
-    exists c1, {| v_base := v_base v1; v_pend := v_pend v1 ++ [LBernOwn (s + Z.of_nat n) fr] |}.
+    destruct (IH Hwf (PGate L_gen (PAct (APushSampOwn s fr) k)) l Hl Hcr Hc) as (c1 & v1 & E & Hv1 & Hf1 & Hc1 & Ha1).
+    exists c1, {| v_base := v_base v1; v_pend := v_pend v1 ++ [LSampOwn (s + Z.of_nat n) fr] |}.
     rewrite E, lexec_gate, lexec_act by (auto; simpl; auto). split; [reflexivity|]. simpl.
     split; [rewrite forallb_app, Hv1; reflexivity|]. split; auto.
     rewrite force_l_snoc by auto. rewrite Hf1. reflexivity.
@@ -573,11 +591,12 @@ Definition linit (c : cache) : lstate :=
 Lemma task_today n p r tf c0 :
   nth_error parts n = Some p -> wf lin r -> tfun_pure tf = true -> cache_ok c0 ->
   let lf := lx (Z.of_nat n) p (task_prog today r tf) (linit c0) in
-  l_res lf = Some (apply_tfun tf (eval r (Z.of_nat n) p)) /\ l_crash lf = false /\ cache_ok (l_cache lf).
+  l_res lf = Some (apply_tfun tf (eval r (Z.of_nat n) p)) /\ l_crash lf = false /\ cache_ok (l_cache lf) /\
+  l_cache lf = adds r (Z.of_nat n) p c0.
 Proof.
   intros Hn Hwf Htf Hc. unfold task_prog.
   destruct (exec_compile n p Hn r Hwf (PAct (AFinish tf) PDone) (linit c0) eq_refl eq_refl Hc)
-    as (c1 & v1 & E & Hv1 & Hf1 & Hc1).
+    as (c1 & v1 & E & Hv1 & Hf1 & Hc1 & Ha1).
   simpl. rewrite E.
   assert (Hl1 : val_local (mk c1 v1 (linit c0))) by exact Hv1.
   rewrite lexec_act by (auto; rewrite do_act_l_finish by auto; reflexivity).
@@ -679,10 +698,11 @@ Proof.
   split; [|split].
   - unfold spec_results. rewrite map_map. apply map_ext_in. intros [i p] Hin. simpl.
     destruct (task_today draw lin parts i p r tf (c_clone driver (Z.of_nat i)) (In_combine_seq0 _ _ _ Hin) Hwf Htf (Hclone _))
-      as (Hr & Hc & _).
+      as (Hr & Hc & _ & _).
     unfold linit in *. rewrite Hc. exact Hr.
   - apply fold_join_ok; auto. intros t Hin. apply in_map_iff in Hin as ([i p] & <- & Hin). simpl.
-    apply (task_today draw lin parts i p r tf (c_clone driver (Z.of_nat i)) (In_combine_seq0 _ _ _ Hin) Hwf Htf (Hclone _)).
+    destruct (task_today draw lin parts i p r tf (c_clone driver (Z.of_nat i)) (In_combine_seq0 _ _ _ Hin) Hwf Htf (Hclone _))
+      as (_ & _ & Hok & _). exact Hok.
   - destruct b; reflexivity.
 Qed.
 
@@ -691,24 +711,26 @@ Lemma local_from r tf sh : wf lin r -> tfun_pure tf = true ->
   forall rest pre driver, parts = pre ++ rest -> cache_ok driver ->
   exists d', run_local_from draw (task_prog today r tf) (length pre) rest driver sh =
              (map (fun ip => Some (apply_tfun tf (eval draw r (Z.of_nat (fst ip)) (snd ip))))
-                  (combine (seq (length pre) (length rest)) rest), d', sh) /\ cache_ok d'.
+                  (combine (seq (length pre) (length rest)) rest), d', sh) /\ cache_ok d' /\
+             d' = fold_left (fun d ip => adds draw r (Z.of_nat (fst ip)) (snd ip) d)
+                            (combine (seq (length pre) (length rest)) rest) driver.
 Proof.
   intros Hwf Htf. induction rest as [|part rest IH]; intros pre driver Hp Hd; simpl.
-  - eauto.
+  - eauto 6.
   - assert (Hn : nth_error parts (length pre) = Some part).
     { rewrite Hp, nth_error_app2, Nat.sub_diag by lia. reflexivity. }
     rewrite (exec_local draw _ _ _ (task_prog_local r tf Htf) sh _ (eq_refl : val_local (linit driver))).
-    destruct (task_today draw lin parts _ _ r tf driver Hn Hwf Htf Hd) as (Hr & Hc & Hok).
-    destruct (IH (pre ++ [part]) _ ltac:(rewrite <- app_assoc; exact Hp) Hok) as (d' & E & Hd').
-    rewrite app_length in E. simpl in E. rewrite Nat.add_1_r in E. unfold linit in *. rewrite E.
-    exists d'. split; auto. rewrite Hc, Hr. reflexivity.
+    destruct (task_today draw lin parts _ _ r tf driver Hn Hwf Htf Hd) as (Hr & Hc & Hok & Ha).
+    destruct (IH (pre ++ [part]) _ ltac:(rewrite <- app_assoc; exact Hp) Hok) as (d' & E & Hd' & Hf).
+    rewrite app_length in E, Hf. simpl in E, Hf. rewrite Nat.add_1_r in E, Hf. unfold linit in *. rewrite E.
+    exists d'. split; [rewrite Hc, Hr; reflexivity|]. split; auto. rewrite Hf, Ha. reflexivity.
 Qed.
 
 Theorem local_job r tf driver sh : wf lin r -> tfun_pure tf = true -> cache_ok driver ->
   exists d', run_local draw today r tf parts driver sh = (spec_results draw r tf parts, d', sh) /\ cache_ok d'.
 Proof.
   intros Hwf Htf Hd. unfold run_local, spec_results.
-  exact (local_from r tf sh Hwf Htf parts [] driver eq_refl Hd).
+  destruct (local_from r tf sh Hwf Htf parts [] driver eq_refl Hd) as (d' & E & H & _). eauto.
 Qed.
 
 Definition job_ok (j : jobspec) : Prop := wf lin (fst (fst j)) /\ tfun_pure (snd (fst j)) = true.
@@ -803,11 +825,11 @@ Proof. vm_compute. repeat split. Qed.
 Definition draw_by_seed (s : Z) (_ : nat) : float := if s =? 5 then 0.125%float else 0.875%float.
 
 Lemma global_rng_variant_bad_schedule :
-  o_results (run_job draw_by_seed InProcess old_global_rng (Sample 5 0.5 Src) FCollect two_parts [] [] shared0)
+  o_results (run_job draw_by_seed InProcess old_global_rng (Sample 5 (SBern 0.5) Src) FCollect two_parts [] [] shared0)
     = [Some [0; 1]; Some []] /\
-  o_results (run_job draw_by_seed InProcess old_global_rng (Sample 5 0.5 Src) FCollect two_parts [0; 1]%nat [] shared0)
+  o_results (run_job draw_by_seed InProcess old_global_rng (Sample 5 (SBern 0.5) Src) FCollect two_parts [0; 1]%nat [] shared0)
     = [Some []; Some []] /\
-  spec_results draw_by_seed (Sample 5 0.5 Src) FCollect two_parts = [Some [0; 1]; Some []].
+  spec_results draw_by_seed (Sample 5 (SBern 0.5) Src) FCollect two_parts = [Some [0; 1]; Some []].
 Proof. vm_compute. repeat split. Qed.
 
 Lemma smuggle_variant_copying :
@@ -817,11 +839,209 @@ Lemma smuggle_variant_copying :
   regroup 1 two_parts = [[0; 1; 2; 3]].
 Proof. vm_compute. repeat split. Qed.
 
+(* ------------------------------------------------------------------------------------------- *)
+(* the driver's cache after a pool job is, entry by entry and in dict order, the cache after the same job on the
+   default executor *)
+Lemma c_get_app a b k : c_get (a ++ b) k = match c_get a k with Some d => Some d | None => c_get b k end.
+Proof. induction a as [|[k' d'] a IH]; simpl; [reflexivity|]. destruct (key_eqb k' k); auto. Qed.
+
+Lemma c_set_absent c k v : c_get c k = None -> c_set c k v = c ++ [(k, v)].
+Proof.
+  induction c as [|[k' d'] c IH]; simpl; [reflexivity|].
+  destruct (key_eqb k' k); [discriminate|]. intros H. rewrite IH; auto.
+Qed.
+
+Lemma c_get_notin c k : (forall k' d, In (k', d) c -> k' <> k) -> c_get c k = None.
+Proof.
+  induction c as [|[k' d'] c IH]; simpl; intros H; [reflexivity|].
+  destruct (key_eqb k' k) eqn:E.
+  - apply key_eqb_eq in E. exfalso. apply (H k' d'); auto.
+  - apply IH. intros k2 d2 Hin. apply (H k2 d2); auto.
+Qed.
+
+Lemma c_get_None_keys c k : c_get c k = None -> ~ In k (c_keys c).
+Proof.
+  induction c as [|[k' d'] c IH]; simpl; [tauto|].
+  destruct (key_eqb k' k) eqn:E; [discriminate|]. intros H [H1|H1].
+  - subst. rewrite key_eqb_refl in E. discriminate.
+  - apply IH; auto.
+Qed.
+
+Lemma existsb_key k ks : existsb (key_eqb k) ks = true <-> In k ks.
+Proof.
+  rewrite existsb_exists. split.
+  - intros (x & Hx & E). apply key_eqb_eq in E. subst; auto.
+  - intros H. exists k. split; auto. apply key_eqb_refl.
+Qed.
+
+Lemma c_not_in_app_new c0 acc :
+  (forall k d, In (k, d) acc -> c_get c0 k = None) -> c_not_in (c0 ++ acc) (c_keys c0) = acc.
+Proof.
+  intros H. unfold c_not_in. rewrite filter_app.
+  assert (E1 : filter (fun kv : key * list Z => negb (existsb (key_eqb (fst kv)) (c_keys c0))) c0 = []).
+  { assert (G : forall l, (forall kv, In kv l -> In (fst kv) (c_keys c0)) ->
+                filter (fun kv : key * list Z => negb (existsb (key_eqb (fst kv)) (c_keys c0))) l = []).
+    { induction l as [|kv l IH]; simpl; intros Hl; [reflexivity|].
+      rewrite (proj2 (existsb_key _ _) (Hl kv (or_introl eq_refl))). simpl. apply IH. intros; apply Hl; auto. }
+    apply G. intros kv Hin. unfold c_keys. apply in_map. exact Hin. }
+  rewrite E1. simpl.
+  induction acc as [|[k d] acc IH]; simpl; [reflexivity|].
+  destruct (existsb (key_eqb k) (c_keys c0)) eqn:E.
+  - apply existsb_key in E. exfalso. apply (c_get_None_keys c0 k); auto. apply (H k d). left; reflexivity.
+  - simpl. f_equal. apply IH. intros k' d' Hin. apply (H k' d'). right; exact Hin.
+Qed.
+
+Lemma c_update_fresh acc : forall d,
+  NoDup (c_keys acc) -> (forall k v, In (k, v) acc -> c_get d k = None) -> c_update d acc = d ++ acc.
+Proof.
+  unfold c_update. induction acc as [|[k v] acc IH]; simpl; intros d Hnd Hf.
+  - rewrite app_nil_r. reflexivity.
+  - inversion Hnd as [|? ? Hk Hnd']; subst.
+    rewrite (c_set_absent d k v) by (apply (Hf k v); auto).
+    rewrite IH; auto.
+    + rewrite <- app_assoc. reflexivity.
+    + intros k' v' Hin. rewrite c_get_app, (Hf k' v') by auto. simpl.
+      destruct (key_eqb k k') eqn:E; [|reflexivity].
+      apply key_eqb_eq in E. subst k'. exfalso. apply Hk. unfold c_keys. apply in_map_iff. exists (k, v'). auto.
+Qed.
+
+Fixpoint ids (r : rdd) : list Z :=
+  match r with Src => [] | Map _ r' => ids r' | Sample _ _ r' => ids r' | Persist id r' => id :: ids r' end.
+Fixpoint size (r : rdd) : nat :=
+  match r with Src => 0 | Map _ r' => S (size r') | Sample _ _ r' => S (size r') | Persist _ r' => S (size r') end.
+
+Lemma wf_ids_size lin r : wf lin r -> forall id, In id (ids r) -> (size (lin id) < size r)%nat.
+Proof.
+  induction r as [|f r IH|id0 r IH|s fr r IH]; simpl; intros Hwf id Hin.
+  - tauto.
+  - specialize (IH Hwf id Hin). lia.
+  - destruct Hwf as [Hl Hwf]. destruct Hin as [->|Hin]; [rewrite Hl; lia | specialize (IH Hwf id Hin); lia].
+  - specialize (IH Hwf id Hin). lia.
+Qed.
+
+Lemma wf_fresh lin id r : wf lin (Persist id r) -> ~ In id (ids r).
+Proof.
+  intros [Hl Hwf] Hin. pose proof (wf_ids_size lin r Hwf id Hin) as H. rewrite Hl in H. lia.
+Qed.
+
+Section Exact.
+Variable draw : Z -> nat -> float.
+Variable lin : Z -> rdd.
+
+Lemma adds_split r i p : wf lin r -> forall dL c0,
+  (forall id, c_get dL (id, i) = c_get c0 (id, i)) ->
+  exists acc, adds draw r i p dL = dL ++ acc /\ adds draw r i p c0 = c0 ++ acc /\
+              (forall k d, In (k, d) acc -> snd k = i /\ In (fst k) (ids r) /\ c_get dL k = None) /\
+              NoDup (c_keys acc).
+Proof.
+  induction r as [|f r IH|id r IH|s fr r IH]; simpl; intros Hwf dL c0 Hag.
+  - exists []. rewrite !app_nil_r. split; [reflexivity|]. split; [reflexivity|]. split; [intros ? ? []|simpl; constructor].
+  - apply IH; auto.
+  - pose proof (wf_fresh lin id r Hwf) as Hfresh. destruct Hwf as [Hl Hwf].
+    unfold c_has. rewrite <- (Hag id).
+    destruct (c_get dL (id, i)) as [d0|] eqn:Eg.
+    + exists []. rewrite !app_nil_r. split; [reflexivity|]. split; [reflexivity|]. split; [intros ? ? []|simpl; constructor].
+    + destruct (IH Hwf dL c0 Hag) as (acc & E1 & E2 & Hk & Hnd).
+      assert (Hacc : c_get acc (id, i) = None).
+      { apply c_get_notin. intros k' d' Hin Heq. subst k'. destruct (Hk _ _ Hin) as (_ & Hin' & _). simpl in Hin'. auto. }
+      exists (acc ++ [((id, i), eval draw r i p)]).
+      rewrite E1, E2.
+      rewrite !c_set_absent by (rewrite c_get_app; try rewrite <- (Hag id); rewrite Eg; exact Hacc).
+      rewrite <- !app_assoc. split; [reflexivity|]. split; [reflexivity|]. split.
+      * intros k d Hin. apply in_app_or in Hin as [Hin|[Hin|[]]].
+        -- destruct (Hk _ _ Hin) as (H1 & H2 & H3). auto.
+        -- inversion Hin; subst. simpl. auto.
+      * unfold c_keys. rewrite map_app. simpl. apply NoDup_app_snoc; auto.
+        intros Hin. apply in_map_iff in Hin as ([k d] & Ek & Hin). simpl in Ek. subst k.
+        destruct (Hk _ _ Hin) as (_ & Hin' & _). simpl in Hin'. auto.
+  - apply IH; auto.
+Qed.
+
+End Exact.
+
+Lemma fold_left_ext_in {A B} (f g : A -> B -> A) l : 
+  (forall x, In x l -> forall a, f a x = g a x) -> forall a, fold_left f l a = fold_left g l a.
+Proof.
+  induction l as [|x l IH]; simpl; intros H a; [reflexivity|].
+  rewrite (H x (or_introl eq_refl)). apply IH. intros; apply H; auto.
+Qed.
+
+Lemma fold_left_map {A B C} (f : A -> C -> A) (g : B -> C) l : forall a,
+  fold_left f (map g l) a = fold_left (fun a x => f a (g x)) l a.
+Proof. induction l; simpl; auto. Qed.
+
+Lemma map_fst_combine_seq {B} (l : list B) : forall a, map fst (combine (seq a (length l)) l) = seq a (length l).
+Proof. induction l; simpl; intros; [reflexivity | f_equal; auto]. Qed.
+
+Section ExactJobs.
+Variable draw : Z -> nat -> float.
+Variable lin : Z -> rdd.
+Variable parts : list (list Z).
+Variable r : rdd.
+Hypothesis Hwf : wf lin r.
+Variable driver : cache.
+
+Definition step_dist (d : cache) (ip : nat * list Z) : cache :=
+  let c0 := c_clone driver (Z.of_nat (fst ip)) in
+  c_update d (c_not_in (adds draw r (Z.of_nat (fst ip)) (snd ip) c0) (c_keys c0)).
+Definition step_local (d : cache) (ip : nat * list Z) : cache := adds draw r (Z.of_nat (fst ip)) (snd ip) d.
+
+Lemma fold_steps_eq ips : NoDup (map fst ips) -> forall A,
+  (forall ip k d, In ip ips -> In (k, d) A -> snd k <> Z.of_nat (fst ip)) ->
+  fold_left step_dist ips (driver ++ A) = fold_left step_local ips (driver ++ A).
+Proof.
+  induction ips as [|[i p] ips IH]; simpl; intros Hnd A HA; [reflexivity|].
+  inversion Hnd as [|? ? Hi Hnd']; subst.
+  set (I := Z.of_nat i).
+  assert (Hag : forall id, c_get (driver ++ A) (id, I) = c_get (c_clone driver I) (id, I)).
+  { intros id. rewrite c_get_app, c_get_clone. destruct (c_get driver (id, I)); [reflexivity|].
+    apply c_get_notin. intros k' d' Hin Heq. subst k'. apply (HA (i, p) _ _ (or_introl eq_refl) Hin). reflexivity. }
+  destruct (adds_split draw lin r I p Hwf (driver ++ A) (c_clone driver I) Hag) as (acc & E1 & E2 & Hk & Hnd2).
+  unfold step_dist at 2, step_local at 2. simpl. fold I. rewrite E1, E2.
+  rewrite c_not_in_app_new.
+  2:{ intros k d Hin. destruct (Hk _ _ Hin) as (H1 & _ & H3). destruct k as [id j]. simpl in H1. subst j.
+      rewrite <- Hag. exact H3. }
+  rewrite c_update_fresh; auto.
+  2:{ intros k v Hin. apply (Hk _ _ Hin). }
+  rewrite <- app_assoc. apply IH; auto.
+  intros ip k d Hip Hin. apply in_app_or in Hin as [Hin|Hin].
+  - apply (HA ip k d); auto.
+  - destruct (Hk _ _ Hin) as (H1 & _ & _). rewrite H1. unfold I. intros Heq. apply Nat2Z.inj in Heq.
+    apply Hi. rewrite Heq. apply in_map. exact Hip.
+Qed.
+
+Hypothesis Hok : cache_ok draw lin parts driver.
+
+Theorem dist_cache_eq_local tf : tfun_pure tf = true ->
+  forall b sched sh,
+  o_driver (run_job draw b today r tf parts sched driver sh) = snd (fst (run_local draw today r tf parts driver sh)).
+Proof.
+  intros Htf b sched sh.
+  (* the default executor *)
+  destruct (local_from draw lin parts r tf sh Hwf Htf parts [] driver eq_refl Hok) as (d' & E & _ & Hd').
+  unfold run_local. simpl in E. rewrite E. simpl. rewrite Hd'. clear E Hd' d'.
+  (* the pool *)
+  unfold run_job.
+  destruct (job_final draw parts b (task_prog today r tf) sched driver sh (task_prog_local r tf Htf)) as [_ Ht].
+  simpl. rewrite Ht. clear Ht. rewrite fold_left_map.
+  rewrite (fold_left_ext_in _ step_dist).
+  - pose proof (fold_steps_eq (combine (seq 0 (length parts)) parts)) as H.
+    rewrite map_fst_combine_seq in H. specialize (H (seq_NoDup _ _) []). rewrite app_nil_r in H.
+    apply H. intros ip k d _ [].
+  - intros [i p] Hin d. unfold step_dist, delta. simpl.
+    assert (Hclone : cache_ok draw lin parts (c_clone driver (Z.of_nat i))).
+    { eapply cache_ok_sub; [|exact Hok]. apply c_clone_In. }
+    destruct (task_today draw lin parts i p r tf _ (In_combine_seq0 _ _ _ Hin) Hwf Htf Hclone) as (_ & _ & _ & Ha).
+    unfold linit in Ha. rewrite Ha. reflexivity.
+Qed.
+
+End ExactJobs.
+
 Theorem sample_job draw lin parts s fr r tf driver :
   wf lin r -> tfun_pure tf = true -> cache_ok draw lin parts driver ->
   forall b sched sh,
   o_results (run_job draw b today (Sample s fr r) tf parts sched driver sh)
-  = map (fun ip => Some (apply_tfun tf (bern draw (s + Z.of_nat (fst ip)) fr (eval draw r (Z.of_nat (fst ip)) (snd ip)))))
+  = map (fun ip => Some (apply_tfun tf (samp draw (s + Z.of_nat (fst ip)) fr (eval draw r (Z.of_nat (fst ip)) (snd ip)))))
         (combine (seq 0 (length parts)) parts).
 Proof.
   intros Hwf Htf Hd b sched sh.
